@@ -348,7 +348,11 @@ fn check_process(case: &Case, prefix: &[u8], endless: &Endless, d: usize, l1: &R
     };
     let mut cmd = std::process::Command::new(&bin);
     cmd.args(case.argv()).stdin(std::process::Stdio::piped()).stdout(of).stderr(ef);
-    let mut child = match cmd.spawn() {
+    let spawned = {
+        let _shared = super::c20::SPAWN_LOCK.read().unwrap_or_else(std::sync::PoisonError::into_inner);
+        cmd.spawn()
+    };
+    let mut child = match spawned {
         Ok(c) => c,
         Err(e) => {
             ctx.harness_error = Some(format!("cannot spawn {}: {e}", bin.display()));
